@@ -245,6 +245,41 @@ def run(tier, seed, t0):
                                          'what': 'after writing a %s on the same thread, its bytes were accepted when read as %s although the schemas differ: %s [%s]'
                                                  % (rust(t), rust(u), ra, cfg), 'written': sexp(t), 'read': sexp(u), 'bytes': ht, 'result': ra})
         stats['histories'] = nhist
+        # (6) recursive derived items (no model type): same-type round trip through the helpers, every ordered pair of
+        # different items rejected - on the implementation alone
+        import rectypes as RT
+        import reccorr
+        rplan = [p_ for p_ in reccorr.plan(seed, 'quick') if p_[2] <= 4][::3]
+        rw = run_cases(exe, [case_line(cid, 'encws', RT.IDS[name], RT.sexp_unfold(name, d), v) for cid, name, d, sh, v in rplan])
+        rlines, rmeta = [], []
+        for cid, name, d, sh, v in rplan:
+            r = rw.get(cid) or ''
+            if '\t' not in r or not r.split('\t', 1)[1].startswith('ok '):
+                if not r.startswith('skip'):
+                    disagreements.append({'what': 'try_to_vec_with_schema of the recursive item %s value %s: %s [%s]' % (name, v[:80], r, cfg)})
+                continue
+            h = r.split('\t', 1)[1][3:].replace('-', '')
+            for other in RT.ITEMS:
+                k = '%s>%s' % (cid, other)
+                rlines.append(case_line(k, 'decws', RT.IDS[other], RT.sexp_unfold(other, d + 1), h))
+                rmeta.append((k, name, other, v, h))
+        rr = run_cases(exe, rlines)
+        nrec = 0
+        for k, name, other, v, h in rmeta:
+            a = rr.get(k)
+            stats['evaluations'] += 1
+            nrec += 1
+            classes[('rec-same:' if name == other else 'rec-pair:') + error_class(a)] += 1
+            if name == other:
+                if a is None or not a.startswith('ok ') or a[3:] != v:
+                    failures.append({'class': 'ws-roundtrip', 'key': 'rec %s %s' % (name, v[:80]),
+                                     'what': 'try_from_slice_with_schema(try_to_vec_with_schema(v)) != v for the recursive item %s: value %s -> %s [%s]' % (name, v[:200], str(a)[:200], cfg),
+                                     'item': name, 'value': v, 'bytes': h, 'result': a})
+            elif a is not None and a.startswith('ok'):
+                failures.append({'class': 'foreign-accepted', 'key': 'rec %s>%s' % (name, other),
+                                 'what': 'bytes written as the recursive item %s (value %s) were accepted when read as %s: %s [%s]' % (name, v[:200], other, a[:200], cfg),
+                                 'written': name, 'read': other, 'bytes': h, 'result': a})
+        stats['recursive_item_pairs'] = nrec
         # (4) the container codec
         corpus = [(cid, c) for cid, c in gen.gen_structured(seed, tier) if SO.fits_codec(c)]
         if tier == 'quick':
